@@ -276,7 +276,12 @@ CLAIMED["C07"] = dict(
     "of the non-terminator instructions for EXIT), in listing order - offset, insertions before the replacement or "
     "deletion that starts there, registration id - and pairwise non-overlapping (resolve_offsets_answer, "
     "scope_offset); it refuses a request list exactly when two requests overlap in that order "
-    "(resolve_offsets_accepts_non_overlapping, resolve_offsets_refuses_overlap). Lean theorems about the scope "
+    "(resolve_offsets_accepts_non_overlapping, resolve_offsets_refuses_overlap); with distinct registration ids "
+    "neither what the store hands out nor what resolve_offsets answers depends on the order of the registrations "
+    "(store_any_registration_order, resolve_offsets_any_order); and the offset the model resolves a position to is "
+    "the one the scope specification prescribes when the instruction sizes it is given are what "
+    "_nonterminator_instructions is defined to keep (store_offset_is_the_specifications; that premise is evaluated "
+    "on the real helper for every block). Lean theorems about the scope "
     "specification (Spec/Scopes.lean): an invocation happens for exactly the (registration, block) pairs where the "
     "scope designates the block, at the offset its position prescribes, ordered by offset and registration. Tie: the "
     "real _ModificationStore and scope objects against the compiled model on every block of generated modules "
